@@ -1388,7 +1388,8 @@ def aten_bitwise_left_shift(self: TInt, other: TInt) -> TInt:
 
     result = op.BitShift(self, other, direction="LEFT")
 
-    return op.Cast(result, to=signed_dtype)
+    # Back to the input dtype (unsigned inputs stay unsigned, as in PyTorch)
+    return op.Cast(result, to=dtype)
 
 
 @torch_op(
